@@ -24,7 +24,7 @@ def generic_points(rnd, n, dim):
 def gen(tier, seed):
     rnd = random.Random(seed)
     vecs = shape_vectors(2, 2) if tier == "quick" else shape_vectors(3, 2)
-    vecs += [random_vector(rnd, pmax=2, mmax=2) for i in range(6 if tier == "quick" else 100)]
+    vecs += [random_vector(rnd, pmax=2, mmax=2) for i in range(6 if tier == "quick" else 250)]
     cases = []
     for v in vecs:
         U, p = v["U"], v["p"]
@@ -42,7 +42,7 @@ def gen(tier, seed):
                               "P": pts_json(generic_points(rnd, n, 1)),
                               "hist": [["elev", 2] if rnd.random() < 0.5 else ["elev", 1], ["elev", 1], ["ins", fsl(mids[:1])]][-3:],
                               "op": op, "raised": True})
-        for rep in range(2 if tier == "quick" else 5):
+        for rep in range(2 if tier == "quick" else 12):
             dim = rnd.choice((1, 1, 2))
             hist = []
             raised = 0
